@@ -460,6 +460,293 @@ theorem augFold_rel (l : List Stmt) (hl : ∀ a ∈ l, a ∈ n.subs) (s₁ s₂ 
   refine ⟨?_, q2⟩
   exact hl'.append (RelL.cons q1 RelL.nil)
 
+
+/-- One field step of the directory case, on both sides.  The include step is not covered (the
+statement has no include substatement); the augment step (module statements only) needs the state
+relation to survive the recording of related augment lists. -/
+theorem step_rel
+    (htype : ∀ t, n.one? "type" = some t →
+      env₁.tres.resolve env₁.reg root₁ sub₁ t = env₂.tres.resolve env₂.reg root₂ sub₂ t)
+    (hinc : n.all "include" = []) (isMod : Bool)
+    (haug : isMod = true → ∀ s₁ s₂ as₁ as₂, RS s₁ s₂ → RelL RE as₁ as₂ →
+      RS { s₁ with augs := s₁.augs ++ [(root₁.seq, as₁)] } { s₂ with augs := s₂.augs ++ [(root₂.seq, as₂)] })
+    (acc₁ acc₂ : Entry × TState) (f : String) (h : AccRel RE RS acc₁ acc₂)
+    (hk : acc₁.1.d.kind = acc₂.1.d.kind)
+    (hin : f = "input" → acc₁.1.inp = [] ∧ acc₂.1.inp = [])
+    (hout : f = "output" → acc₁.1.out = [] ∧ acc₂.1.out = []) :
+    AccRel RE RS (stepFn env₁ r1 root₁ n sub₁ vis₁ isMod acc₁ f) (stepFn env₂ r2 root₂ n sub₂ vis₂ isMod acc₂ f) := by
+  obtain ⟨e₁, s₁⟩ := acc₁
+  obtain ⟨e₂, s₂⟩ := acc₂
+  obtain ⟨he, hs⟩ := h
+  dsimp only at he hs hk hin hout
+  have hgood : ∀ (g : EData → EData), GoodF g → RE (e₁.withD g) (e₂.withD g) := fun g hg => hC.withD _ _ g hg he
+  unfold stepFn
+  dsimp only
+  split
+  all_goals try dsimp only
+  all_goals first
+    | exact ⟨he, hs⟩
+    | exact ⟨hC.addErrs _ _ _ (hgood _ ⟨fun _ => rfl, fun _ _ => rfl⟩), hs⟩
+    | (refine ⟨?_, hs⟩; split
+       · exact hgood _ ⟨fun _ => rfl, fun _ _ => rfl⟩
+       · exact he)
+    | exact addFold_rel hC r1 r2 root₁ root₂ n sub₁ sub₂ vis₁ vis₂ hch _ (e₁, s₁) (e₂, s₂) ⟨he, hs⟩
+    | exact rpcFold_rel hC r1 r2 root₁ root₂ n sub₁ sub₂ vis₁ vis₂ hch _ (e₁, s₁) (e₂, s₂) ⟨he, hs⟩
+    | exact importFold_rel hC r1 r2 root₁ root₂ n sub₁ sub₂ vis₁ vis₂ hch _ (e₁, s₁) (e₂, s₂) ⟨he, hs⟩
+    | exact usesFold_rel hC r1 r2 root₁ root₂ n sub₁ sub₂ vis₁ vis₂ hch _ (e₁, s₁) (e₂, s₂) ⟨he, hs⟩
+    | exact deviateFold_rel hC r1 r2 root₁ root₂ n sub₁ sub₂ vis₁ vis₂ hch _ (e₁, s₁) (e₂, s₂) ⟨he, hs⟩
+    | skip
+  case h_18 =>
+    split
+    · exact ⟨he, hs⟩
+    · rename_i i hi
+      obtain ⟨q1, q2⟩ := hch i (mem_one_subs hi) s₁ s₂ hs
+      refine ⟨?_, q2⟩
+      have := hC.setInp _ _ _ _ (hin rfl).1 (hin rfl).2 he
+        (hC.withD _ _ (fun d => { d with name := "input", kind := .input }) ⟨fun _ => rfl, fun _ _ => rfl⟩ q1)
+      cases e₁; cases e₂; exact this
+  case h_19 =>
+    split
+    · exact ⟨he, hs⟩
+    · rename_i o ho
+      obtain ⟨q1, q2⟩ := hch o (mem_one_subs ho) s₁ s₂ hs
+      refine ⟨?_, q2⟩
+      have := hC.setOut _ _ _ _ (hout rfl).1 (hout rfl).2 he
+        (hC.withD _ _ (fun d => { d with name := "output", kind := .output }) ⟨fun _ => rfl, fun _ _ => rfl⟩ q1)
+      cases e₁; cases e₂; exact this
+  case h_20 =>
+    rw [hinc]
+    exact ⟨he, hs⟩
+  case h_23 =>
+    split
+    · exact ⟨he, hs⟩
+    · rename_i t ht
+      have ht' := htype t ht
+      generalize hA : env₂.tres.resolve env₂.reg root₂ sub₂ t = A at ht'
+      change AccRel RE RS
+        (if (env₁.tres.resolve env₁.reg root₁ sub₁ t).2.isEmpty = true then
+          (e₁.withD fun d => { d with type := (env₁.tres.resolve env₁.reg root₁ sub₁ t).1 }, s₁)
+        else (e₁.addErr (Err.bare "deviate-bad-type"), s₁))
+        (if (env₂.tres.resolve env₂.reg root₂ sub₂ t).2.isEmpty = true then
+          (e₂.withD fun d => { d with type := (env₂.tres.resolve env₂.reg root₂ sub₂ t).1 }, s₂)
+        else (e₂.addErr (Err.bare "deviate-bad-type"), s₂))
+      rw [ht', hA]
+      split
+      · exact ⟨hgood _ ⟨fun _ => rfl, fun _ _ => rfl⟩, hs⟩
+      · exact ⟨hC.addErr _ _ _ he, hs⟩
+  case h_24 =>
+    rw [hk]
+    split
+    · refine ⟨?_, hs⟩
+      split
+      · exact hgood _ ⟨fun _ => rfl, fun _ _ => rfl⟩
+      · exact he
+    · exact ⟨he, hs⟩
+  case h_26 =>
+    rw [hk]
+    split
+    · exact ⟨he, hs⟩
+    · refine ⟨?_, hs⟩
+      have h1 : RE (e₁.withD fun d => { d with listAttr := some (d.listAttr.getD {}) })
+          (e₂.withD fun d => { d with listAttr := some (d.listAttr.getD {}) }) :=
+        hgood _ ⟨fun _ => rfl, fun _ _ => rfl⟩
+      split
+      · exact h1
+      · exact hC.addErrs _ _ _ (hC.withD _ _ _ ⟨fun _ => rfl, fun _ _ => rfl⟩ h1)
+  case h_27 =>
+    rw [hk]
+    split
+    · exact ⟨he, hs⟩
+    · refine ⟨?_, hs⟩
+      have h1 : RE (e₁.withD fun d => { d with listAttr := some (d.listAttr.getD {}) })
+          (e₂.withD fun d => { d with listAttr := some (d.listAttr.getD {}) }) :=
+        hgood _ ⟨fun _ => rfl, fun _ _ => rfl⟩
+      split
+      · exact h1
+      · exact hC.addErrs _ _ _ (hC.withD _ _ _ ⟨fun _ => rfl, fun _ _ => rfl⟩ h1)
+  case h_28 =>
+    split
+    · exact ⟨he, hs⟩
+    · rename_i hm
+      have hm' : isMod = true := by simpa using hm
+      obtain ⟨a1, a2⟩ := augFold_rel r1 r2 root₁ root₂ n sub₁ sub₂ vis₁ vis₂ hch (n.all "augment")
+        (fun a ha => mem_all_subs ha) s₁ s₂ hs
+      exact ⟨he, haug hm' _ _ _ _ a2 a1⟩
+
+
+/-- All field steps, from the initial entries. -/
+theorem steps_rel
+    (htype : ∀ t, n.one? "type" = some t →
+      env₁.tres.resolve env₁.reg root₁ sub₁ t = env₂.tres.resolve env₂.reg root₂ sub₂ t)
+    (hinc : n.all "include" = []) (isMod : Bool)
+    (haug : isMod = true → ∀ s₁ s₂ as₁ as₂, RS s₁ s₂ → RelL RE as₁ as₂ →
+      RS { s₁ with augs := s₁.augs ++ [(root₁.seq, as₁)] } { s₂ with augs := s₂.augs ++ [(root₂.seq, as₂)] })
+    (hbase : RE (e0 root₁ n) (e0 root₂ n)) (s₁ s₂ : TState) (hs : RS s₁ s₂) :
+    AccRel RE RS ((fieldOrder n.kw).foldl (stepFn env₁ r1 root₁ n sub₁ vis₁ isMod) (e0 root₁ n, s₁))
+      ((fieldOrder n.kw).foldl (stepFn env₂ r2 root₂ n sub₂ vis₂ isMod) (e0 root₂ n, s₂)) := by
+  have k0 : (e0 root₁ n).d.kind = (e0 root₂ n).d.kind := by rw [(e0_data root₁ n).2.1, (e0_data root₂ n).2.1]
+  have S := step_rel hC env₁ env₂ r1 r2 root₁ root₂ n sub₁ sub₂ vis₁ vis₂ hch htype hinc isMod haug
+  by_cases hio : "input" ∈ fieldOrder n.kw ∨ "output" ∈ fieldOrder n.kw
+  · rw [fieldOrder_io _ hio]
+    simp only [List.foldl]
+    have t1 := S (e0 root₁ n, s₁) (e0 root₂ n, s₂) "output" ⟨hbase, hs⟩ k0
+      (fun h => absurd h (by decide)) (fun _ => ⟨rfl, rfl⟩)
+    have a1 := rootKeep_stepFn env₁ r1 root₁ n sub₁ vis₁ isMod (e0 root₁ n, s₁) "output"
+    have b1 := rootKeep_stepFn env₂ r2 root₂ n sub₂ vis₂ isMod (e0 root₂ n, s₂) "output"
+    have i1 := stepFn_output_inp env₁ r1 root₁ n sub₁ vis₁ isMod (e0 root₁ n, s₁)
+    have j1 := stepFn_output_inp env₂ r2 root₂ n sub₂ vis₂ isMod (e0 root₂ n, s₂)
+    generalize stepFn env₁ r1 root₁ n sub₁ vis₁ isMod (e0 root₁ n, s₁) "output" = x1 at t1 a1 i1 ⊢
+    generalize stepFn env₂ r2 root₂ n sub₂ vis₂ isMod (e0 root₂ n, s₂) "output" = y1 at t1 b1 j1 ⊢
+    have k1 : x1.1.d.kind = y1.1.d.kind := by rw [a1.2.1, b1.2.1]; exact k0
+    have t2 := S x1 y1 "input" t1 k1 (fun _ => ⟨i1, j1⟩) (fun h => absurd h (by decide))
+    have a2 := rootKeep_stepFn env₁ r1 root₁ n sub₁ vis₁ isMod x1 "input"
+    have b2 := rootKeep_stepFn env₂ r2 root₂ n sub₂ vis₂ isMod y1 "input"
+    generalize stepFn env₁ r1 root₁ n sub₁ vis₁ isMod x1 "input" = x2 at t2 a2 ⊢
+    generalize stepFn env₂ r2 root₂ n sub₂ vis₂ isMod y1 "input" = y2 at t2 b2 ⊢
+    have k2 : x2.1.d.kind = y2.1.d.kind := by rw [a2.2.1, b2.2.1]; exact k1
+    have t3 := S x2 y2 "grouping" t2 k2 (fun h => absurd h (by decide)) (fun h => absurd h (by decide))
+    have a3 := rootKeep_stepFn env₁ r1 root₁ n sub₁ vis₁ isMod x2 "grouping"
+    have b3 := rootKeep_stepFn env₂ r2 root₂ n sub₂ vis₂ isMod y2 "grouping"
+    generalize stepFn env₁ r1 root₁ n sub₁ vis₁ isMod x2 "grouping" = x3 at t3 a3 ⊢
+    generalize stepFn env₂ r2 root₂ n sub₂ vis₂ isMod y2 "grouping" = y3 at t3 b3 ⊢
+    have k3 : x3.1.d.kind = y3.1.d.kind := by rw [a3.2.1, b3.2.1]; exact k2
+    exact S x3 y3 "description" t3 k3 (fun h => absurd h (by decide)) (fun h => absurd h (by decide))
+  · have hni : "input" ∉ fieldOrder n.kw := fun h => hio (Or.inl h)
+    have hno : "output" ∉ fieldOrder n.kw := fun h => hio (Or.inr h)
+    refine (foldl_rel (fun (a₁ a₂ : Entry × TState) => AccRel RE RS a₁ a₂ ∧ a₁.1.d.kind = a₂.1.d.kind) _ _ _ _ _
+      ⟨⟨hbase, hs⟩, k0⟩ ?_).1
+    rintro a₁ a₂ f hf ⟨ha, hk⟩
+    refine ⟨S a₁ a₂ f ha hk (fun h => absurd (h ▸ hf) hni) (fun h => absurd (h ▸ hf) hno), ?_⟩
+    rw [(rootKeep_stepFn env₁ r1 root₁ n sub₁ vis₁ isMod a₁ f).2.1,
+      (rootKeep_stepFn env₂ r2 root₂ n sub₂ vis₂ isMod a₂ f).2.1]
+    exact hk
+
 end Step
+
+/-! ### the body below the caches and the cycle check -/
+
+/-- `toEntry` of a statement once the entry cache, the grouping cache and the cycle check have let
+it pass: `vis` already contains the node when it is tracked, `lk` is the answer of the grouping
+lookup for a `uses`. -/
+def core (env : Env) (rec : Rec) (root : Mod) (scope : List Stmt) (n : Stmt) (vis : List NodeId) (st : TState)
+    (lk : Option GroupingRef) (isMod : Bool) : Entry × TState :=
+  if n.kw == "leaf" then (leafEntry env root scope n false, st)
+  else if n.kw == "leaf-list" then
+    ((leafEntry env root scope n true).withD fun d =>
+      { d with listAttr := some (listAttrOf n).1, errors := d.errors ++ (listAttrOf n).2,
+               default := (n.all "default").map (·.arg) }, st)
+  else if n.kw == "uses" then
+    match lk with
+    | none => (errorEntry root n "unknown-group", st)
+    | some (g, groot, gscope) => rec groot gscope g vis st
+  else dirBody env rec root scope n vis st isMod
+
+/-- The guards of `toEntryBody`, named. -/
+def isModKw (n : Stmt) : Bool := n.kw == "module" || n.kw == "submodule"
+def tracked (n : Stmt) : Bool := isModKw n || n.kw == "grouping"
+def vis' (root : Mod) (n : Stmt) (vis : List NodeId) : List NodeId := if tracked n then nodeId root n :: vis else vis
+
+theorem toEntryBody_core (env : Env) (fuel : Nat) (rec : Rec) (root : Mod) (scope : List Stmt) (n : Stmt)
+    (vis : List NodeId) (st : TState)
+    (h1 : (if isModKw n then st.cache.find? (·.1 == root.seq) else none) = none)
+    (h2 : (if n.kw == "grouping" then st.gcache.find? (·.1 == nodeId root n) else none) = none)
+    (h3 : (tracked n && vis.contains (nodeId root n)) = false) :
+    toEntryBody env fuel rec root scope n vis st =
+      core env rec root scope n (vis' root n vis) st
+        (findGrouping env.reg env.linked (2 * fuel + 16) root scope n.arg []).1 (isModKw n) := by
+  unfold toEntryBody
+  unfold isModKw at h1
+  unfold tracked isModKw at h3
+  simp only [h1, h2, h3]
+  unfold core vis' tracked isModKw
+  simp only [Bool.false_eq_true, if_false]
+  rfl
+
+/-- The leaf-list case as two closed operations. -/
+theorem leafList_eq (e : Entry) (la : ListAttr) (xs : List Err) (dl : List String) :
+    (e.withD fun d => { d with listAttr := some la, errors := d.errors ++ xs, default := dl }) =
+      (e.withD fun d => { d with listAttr := some la, default := dl }).addErrs xs := by
+  cases e; rfl
+
+section Core
+variable {RE : Entry → Entry → Prop} (hC : Closed2 RE) {RS : TState → TState → Prop}
+  (env₁ env₂ : Env) (r1 r2 : Rec) (root₁ root₂ : Mod) (n : Stmt) (scope₁ scope₂ : List Stmt) (vis₁ vis₂ : List NodeId)
+include hC
+
+/-- **Relational traversal, one level.**  Two conversions of the statement `n` (not a (sub)module
+statement with include substatements) give related results when: the initial entries, the leaf
+entries and the error entry are related; type resolution answers alike; the recursive calls on
+the substatements give related results from related states; for a `uses`, the lookups answer
+alike and the recursive calls on the answers give related results; and the state relation survives
+the recording of the result in the caches. -/
+theorem core_rel (s₁ s₂ : TState) (hs : RS s₁ s₂) (lk₁ lk₂ : Option GroupingRef) (isMod : Bool)
+    (hbase : RE (e0 root₁ n) (e0 root₂ n))
+    (hleaf : ∀ syn, RE (leafEntry env₁ root₁ scope₁ n syn) (leafEntry env₂ root₂ scope₂ n syn))
+    (herr : RE (errorEntry root₁ n "unknown-group") (errorEntry root₂ n "unknown-group"))
+    (htype : ∀ t, n.one? "type" = some t →
+      env₁.tres.resolve env₁.reg root₁ (n :: scope₁) t = env₂.tres.resolve env₂.reg root₂ (n :: scope₂) t)
+    (hinc : n.all "include" = [])
+    (hch : ∀ c ∈ n.subs, ∀ t₁ t₂, RS t₁ t₂ →
+      AccRel RE RS (r1 root₁ (n :: scope₁) c vis₁ t₁) (r2 root₂ (n :: scope₂) c vis₂ t₂))
+    (huses : n.kw = "uses" →
+      match lk₁, lk₂ with
+      | none, none => True
+      | some (g₁, gr₁, gs₁), some (g₂, gr₂, gs₂) =>
+        ∀ t₁ t₂, RS t₁ t₂ → AccRel RE RS (r1 gr₁ gs₁ g₁ vis₁ t₁) (r2 gr₂ gs₂ g₂ vis₂ t₂)
+      | _, _ => False)
+    (haug : isMod = true → ∀ t₁ t₂ as₁ as₂, RS t₁ t₂ → RelL RE as₁ as₂ →
+      RS { t₁ with augs := t₁.augs ++ [(root₁.seq, as₁)] } { t₂ with augs := t₂.augs ++ [(root₂.seq, as₂)] })
+    (hcache : isMod = true → ∀ t₁ t₂ a b, RS t₁ t₂ → RE a b →
+      RS { t₁ with cache := t₁.cache ++ [(root₁.seq, a)] } { t₂ with cache := t₂.cache ++ [(root₂.seq, b)] })
+    (hgc : n.kw = "grouping" → ∀ t₁ t₂ a b, RS t₁ t₂ → RE a b →
+      RS { t₁ with gcache := t₁.gcache ++ [(nodeId root₁ n, a)] } { t₂ with gcache := t₂.gcache ++ [(nodeId root₂ n, b)] }) :
+    AccRel RE RS (core env₁ r1 root₁ scope₁ n vis₁ s₁ lk₁ isMod) (core env₂ r2 root₂ scope₂ n vis₂ s₂ lk₂ isMod) := by
+  unfold core
+  split
+  · exact ⟨hleaf false, hs⟩
+  · split
+    · refine ⟨?_, hs⟩
+      dsimp only
+      rw [leafList_eq, leafList_eq]
+      exact hC.addErrs _ _ _ (hC.withD _ _ _ ⟨fun _ => rfl, fun _ _ => rfl⟩ (hleaf true))
+    · split
+      · rename_i hu
+        have hu' : n.kw = "uses" := by simpa using hu
+        have := huses hu'
+        cases lk₁ with
+        | none =>
+          cases lk₂ with
+          | none => exact ⟨herr, hs⟩
+          | some r => obtain ⟨g, gr, gs⟩ := r; exact absurd this id
+        | some r =>
+          obtain ⟨g₁, gr₁, gs₁⟩ := r
+          cases lk₂ with
+          | none => exact absurd this id
+          | some r' =>
+            obtain ⟨g₂, gr₂, gs₂⟩ := r'
+            exact this s₁ s₂ hs
+      · have hst := steps_rel hC env₁ env₂ r1 r2 root₁ root₂ n (n :: scope₁) (n :: scope₂) vis₁ vis₂ hch htype hinc
+          isMod haug hbase s₁ s₂ hs
+        unfold dirBody
+        dsimp only
+        generalize (fieldOrder n.kw).foldl (stepFn env₁ r1 root₁ n (n :: scope₁) vis₁ isMod) (e0 root₁ n, s₁) = x at hst ⊢
+        generalize (fieldOrder n.kw).foldl (stepFn env₂ r2 root₂ n (n :: scope₂) vis₂ isMod) (e0 root₂ n, s₂) = y at hst ⊢
+        obtain ⟨x1, x2⟩ := x
+        obtain ⟨y1, y2⟩ := y
+        obtain ⟨he, hs'⟩ := hst
+        dsimp only at he hs' ⊢
+        cases isMod with
+        | true =>
+          simp only [if_true]
+          exact ⟨he, hcache rfl _ _ _ _ hs' he⟩
+        | false =>
+          simp only [Bool.false_eq_true, if_false]
+          split
+          · rename_i hg
+            have hg' : n.kw = "grouping" := by simpa using hg
+            exact ⟨he, hgc hg' _ _ _ _ hs' he⟩
+          · exact ⟨he, hs'⟩
+
+end Core
 
 end Goyang.Lemmas.IncludeRel
